@@ -97,6 +97,20 @@ fn replay_inputs(p: &PathBuf) -> Vec<Value> {
     }
 }
 
+/// A panic of the code under test that escapes a property's own harness module must not take the whole run down:
+/// the input is recorded (cases.json: "panicked") and reported by `check` as a concrete failing input.
+fn guarded(w: &mut CaseWriter, input: &Value, f: impl FnOnce() -> Case) {
+    match std::panic::catch_unwind(std::panic::AssertUnwindSafe(f)) {
+        Ok(c) => w.push(c),
+        Err(e) => {
+            let msg = if let Some(s) = e.downcast_ref::<String>() { s.clone() } else if let Some(s) = e.downcast_ref::<&str>() { s.to_string() } else { "panic".to_string() };
+            let mut j = input.clone();
+            j["harness_panic"] = serde_json::json!(format!("{} at {}", msg, util::LAST_PANIC_LOC.lock().unwrap()));
+            w.panicked.push(j);
+        }
+    }
+}
+
 fn main() {
     // panics of the code under test are caught and reported per case
     std::panic::set_hook(Box::new(|info| {
@@ -120,7 +134,7 @@ fn main() {
                 inputs.extend(c20::generate(&mut rng, args.n, args.thorough));
             }
             for i in &inputs {
-                w.push(c20::run_input(i));
+                guarded(&mut w, i, || c20::run_input(i));
             }
             header = c20::HEADER;
             ctype = c20::CTYPE;
@@ -170,7 +184,7 @@ fn main() {
                 inputs.extend(c15::generate(&mut rng, args.n, args.thorough));
             }
             for i in &inputs {
-                w.push(c15::run_input(i));
+                guarded(&mut w, i, || c15::run_input(i));
             }
             header = c15::HEADER;
             ctype = c15::CTYPE;
@@ -181,7 +195,7 @@ fn main() {
                 inputs.extend(c01::generate(&mut rng, args.n, args.thorough));
             }
             for i in &inputs {
-                w.push(c01::run_input(i));
+                guarded(&mut w, i, || c01::run_input(i));
             }
             header = c01::HEADER;
             ctype = c01::CTYPE;
@@ -215,7 +229,7 @@ fn main() {
                 inputs.extend(c19::generate(&mut rng, args.n, args.thorough));
             }
             for i in &inputs {
-                w.push(c19::run_input(i));
+                guarded(&mut w, i, || c19::run_input(i));
             }
             header = c19::HEADER;
             ctype = c19::CTYPE;
@@ -229,7 +243,7 @@ fn main() {
                 inputs.extend(c16::generate(&mut rng, args.n, args.thorough));
             }
             for i in &inputs {
-                w.push(c16::run_input(i));
+                guarded(&mut w, i, || c16::run_input(i));
             }
             header = c16::HEADER;
             ctype = c16::CTYPE;
@@ -240,7 +254,7 @@ fn main() {
                 inputs.extend(c17::generate(&mut rng, args.n, args.thorough));
             }
             for i in &inputs {
-                w.push(c17::run_input(i));
+                guarded(&mut w, i, || c17::run_input(i));
             }
             header = c17::HEADER;
             ctype = c17::CTYPE;
